@@ -194,7 +194,10 @@ def main():
                 # remote
                 rem = {'kind': 'ok', 'val': '', 'msg': ''}
                 try:
-                    r = env._call(name, *args, **kwargs)
+                    # well-formed requests go through the public client method (what an editor plugin calls), the malformed
+                    # ones (unknown method, wrong arguments) can only be sent through the transport
+                    meth = getattr(env, name, None) if has_local and name in ('lint', 'assist', 'location', 'configure', 'eval') else None
+                    r = meth(*args, **kwargs) if meth is not None else env._call(name, *args, **kwargs)
                     rem['val'] = digest(norm_reply(name, r))
                 except Exception as e:  # noqa
                     rem = {'kind': 'exc', 'val': '', 'msg': mask(str(e))}
